@@ -3,6 +3,8 @@ import random
 MOD = 'vf.harness.e3jobs'
 
 OWN = {
+    'C09': ['coarsest-level-searches-user-interval-over-sf^(n-1)', 'user-interval-at-each-scale', 'right-user-interval-at-each-scale',
+            'accepted-pipeline-runs-without-error'],
     'C01': ['accepted-iff-documented-path', 'rejection-is-a-sequencing-error', 'after-check-initial-state-no-leftover-transitions',
             'checked-pipeline-keeps-order', 'second-check-same-machine-identical', 'accepted-pipeline-runs-without-error',
             'each-step-once-per-scale-in-order-left-then-right', 'after-run-initial-state-no-leftover-transitions',
